@@ -716,7 +716,14 @@ pub fn theil_sen_line(values: &[f64]) -> Option<(f64, f64)> {
         let i_f = count_to_f64(i);
         for (j, &later) in values.iter().enumerate().skip(i.saturating_add(1)) {
             let span = count_to_f64(j) - i_f;
-            slopes.push((later - earlier) / span);
+            let rise = later - earlier;
+            // Two finite values of opposite sign can be further apart than `f64::MAX` while
+            // their slope is still representable: divide first in that case.
+            slopes.push(if rise.is_finite() {
+                rise / span
+            } else {
+                later / span - earlier / span
+            });
         }
     }
     let slope = median_in_place(&mut slopes)?;
@@ -724,7 +731,16 @@ pub fn theil_sen_line(values: &[f64]) -> Option<(f64, f64)> {
     let mut intercepts: Vec<f64> = values
         .iter()
         .enumerate()
-        .map(|(i, &value)| value - slope * count_to_f64(i))
+        .map(|(i, &value)| {
+            let run = slope * count_to_f64(i);
+            // Likewise `slope·i` may overflow although `value − slope·i` is representable:
+            // evaluate at half scale in that case.
+            if run.is_finite() {
+                value - run
+            } else {
+                (value * 0.5 - slope * (count_to_f64(i) * 0.5)) * 2.0
+            }
+        })
         .collect();
     let intercept = median_in_place(&mut intercepts)?;
     Some((slope, intercept))
